@@ -17,6 +17,9 @@ import (
 type DialDecision struct {
 	Err  error  // fail the dial
 	Gate string // block on this gate first (aborted by context)
+	// IgnoreCancel: a Dialer that does not look at its context; the gate is
+	// not aborted and a connection comes back although the context is done.
+	IgnoreCancel bool
 }
 
 // WriteDecision tells how a Write call proceeds.
@@ -158,8 +161,8 @@ func (w *World) Dialer() func(ctx context.Context) (net.Conn, error) {
 			d = w.DialPlan(w, attempt)
 		}
 		if d.Gate != "" {
-			w.waitGate(w.Gate(d.Gate), func() bool { return ctx.Err() != nil })
-			if err := ctx.Err(); err != nil {
+			w.waitGate(w.Gate(d.Gate), func() bool { return !d.IgnoreCancel && ctx.Err() != nil })
+			if err := ctx.Err(); err != nil && !d.IgnoreCancel {
 				w.log(Event{Kind: "dial.ret", N: attempt, Err: err.Error()})
 				return nil, err
 			}
